@@ -722,7 +722,7 @@ def check_branches(F, res, emits, emit_self):
         if b[0] == 'seq' and show(b[1]) == 'targets(targets)':
             e = b[2]
             en = nth_from_top(e[1], 'ctx.controls') if e[0] == 'field' and e[2] == 'block' else None
-            okb = en is not None and strip_cast_show(en) == 'elem(targets(targets))'
+            okb = en is not None and strip_cast_show(en) == 'elem(targets(targets))' and not fl_reorders(w, b)
         if not (okd and okb):
             res.bad('BrTable/labels', 'br_table: every label (and the default) must be the block of the frame that many levels '
                     'below the top of the control stack, in table order; got %s' % show(ir))
@@ -745,12 +745,17 @@ def check_branches(F, res, emits, emit_self):
         out = ins[0]['args'][1]
         t0, t1 = cfield(out, '0'), cfield(out, '1')
         good = out[2] == 'BrTable' and depth_of(t1, 'blocks') == sym('D') and t0[0] == 'seq' and t0[1] == sym('BS') \
-            and depth_of(t0[2], 'blocks') == ('elem', sym('BS'))
+            and depth_of(t0[2], 'blocks') == ('elem', sym('BS')) and not fl_reorders(w2, t0)
         if good:
             res.ok('BrTable/encode', {'ir': 'BrTable', 'instruction': show(out)})
         else:
             res.bad('BrTable/encode-depth', 'br_table: emitted targets must be the depths of the labels in order, then the default; got %s'
                     % show(out))
+
+
+def fl_reorders(w, coll):
+    from flowlib import reorders
+    return reorders(w, coll)
 
 
 def strip_cast_show(t):
